@@ -214,35 +214,59 @@ def main():
             hs += [H.iface_many_history(rng, f"inew process {l} {mem}", rng.randrange(66, 100)) for l in ("-", "0", "100")]
             istreams.append((f"iface-process-mem{mem}", hs))
     for iname, hists in istreams:
-        cases, hist_of = [], []
-        for hi, h in enumerate(hists):
-            for l in h:
-                cases.append(l); hist_of.append(hi)
-        out_i, out_m, diffs, crashed = c.correspond(iname, cases, ibin, model, canon=H.canon_iface,
-                                                    nontrivial=lambda cs, o: cs if (o.startswith(("hit", "cached", "detached")) and "detached -" not in o) else None)
+        # thread_shared: one harness process for the whole stream (every `inew` builds a fresh service and cache);
+        # process_shared: one harness process per history — the shared segment is created once per process and the
+        # cache objects in it are never destroyed, so histories run back to back would put each other under memory pressure
+        per_history = iname.startswith("iface-process")
+        cases, hist_of, raw_i, raw_m = [], [], [], []
+        crashed = None
+        for hi, grp in ([(hi, h) for hi, h in enumerate(hists)] if per_history else [(None, [l for h in hists for l in h])]):
+            rc, o, err = c.run_lines(ibin, grp)
+            rc2, mo, err2 = c.run_lines(model, grp)
+            if rc2 != 0:
+                c.broke(f"model driver crashed on stream {iname}", err2)
+            if rc != 0 or len(o) < len(grp):
+                crashed = crashed or {"history": grp if per_history else None, "at": len(cases) + len(o), "stderr": err}
+            o = o + ["<no output: harness died>"] * (len(grp) - len(o))
+            mo = mo + ["<no output: model driver died>"] * (len(grp) - len(mo))
+            cases += grp; raw_i += o[:len(grp)]; raw_m += mo[:len(grp)]
+        hi = 0
+        for h in hists:
+            hist_of += [hi] * len(h); hi += 1
+        out_i = [H.canon_iface(x) for x in raw_i]; out_m = [H.canon_iface(x) for x in raw_m]
+        diffs = [(k, cases[k], out_i[k], out_m[k]) for k in range(len(cases)) if out_i[k] != out_m[k]]
+        c.evaluations += len(cases); c.traces_validated += len(cases)
+        for cs, o in zip(cases, out_m):
+            if o.startswith(("hit", "cached", "detached")) and "detached -" not in o:
+                c.nontrivial.add(cs)
+        c.log(f"correspond[{iname}]: {len(cases)} cases, {len(diffs)} diffs" + (", harness died" if crashed else ""))
         for cs in cases:
             dist[cs.split()[0]] = dist.get(cs.split()[0], 0) + 1
         judged += len(cases)
-        c.samples += [{"stream": iname, "case": cases[i], "impl": out_i[i] if i < len(out_i) else None, "model": out_m[i] if i < len(out_m) else None}
-                      for i in (1, len(cases) // 2) if i < len(cases)]
+        c.samples += [{"stream": iname, "case": cases[i], "impl": out_i[i], "model": out_m[i]} for i in (1, len(cases) // 2) if i < len(cases)]
         def iface_fails(h):
             rc, o, err = c.run_lines(ibin, h)
             return rc != 0 or len(o) < len(h) or bool(H.iface_judge(h, o))
         if crashed:
-            k = len(out_i)
-            c.violation("sanitizer abort / crash of the service / cache_interface", {"history": hists[hist_of[min(k, len(hist_of) - 1)]], "stderr": crashed["stderr"]})
+            k = min(crashed["at"], len(hist_of) - 1)
+            c.violation("sanitizer abort / crash of the service / cache_interface", {"history": crashed["history"] or hists[hist_of[k]], "stderr": crashed["stderr"]})
         else:
-            bad = H.iface_judge(cases, out_i)
+            bad = H.iface_judge(cases, raw_i)        # raw answers: the judge needs the low-memory flag
             seen_h = set()
             for k, msg in bad:
                 hi = hist_of[k]
                 if hi in seen_h or len(seen_h) >= 3:
                     continue
                 seen_h.add(hi)
-                small = R.shrink(hists[hi], 0, iface_fails, budget=120) if iface_fails(hists[hi]) else hists[hi]
-                rc, o, err = c.run_lines(ibin, small)
-                c.violation("cache_interface: " + (H.iface_judge(small, o) or [(0, msg)])[0][1],
-                            {"history": small, "impl_outputs": o, "stream": iname, "note": "replay: .build/harness/c07i < history"})
+                if iface_fails(hists[hi]):
+                    small = R.shrink(hists[hi], 0, iface_fails, budget=120)
+                    rc, o, err = c.run_lines(ibin, small)
+                    c.violation("cache_interface: " + H.iface_judge(small, o)[0][1] if H.iface_judge(small, o) else "cache_interface: " + msg,
+                                {"history": small, "impl_outputs": o, "stream": iname, "note": "replay: bin/check C07 --replay <this file>"})
+                else:
+                    # fails only in the context of the stream (one harness process for many histories): not a
+                    # counter-example on its own; report the tie as broken with the whole prefix
+                    c.broke(f"judge of stream {iname}", f"history {hi} fails in the stream ({msg}) but passes when run alone: {json.dumps(hists[hi])}")
             if diffs and not bad:
                 k, cs, a, b = diffs[0]
                 def idiffers(h):
